@@ -60,6 +60,7 @@ type FuncContract struct {
 	Pos        string
 	Assumed    bool // from /verif/assumed (external)
 	Used       bool
+	GhostMods  []string
 	VerifyImpls bool     // interface contract: module implementations are verified against it
 	Aliases    []string // positional parameter names (receiver first) when inherited by an implementation
 	IfaceKey   string
@@ -85,7 +86,7 @@ var clauseKeywords = map[string]bool{
 	"modifies": true, "invariant": true, "nopanic": true, "trusted": true, "pure": true,
 	"specfn": true, "let": true, "assume": true, "typeinv": true, "protect": true,
 	"monotone": true, "results": true, "assert": true, "package": true, "sweep": true,
-	"axiom": true, "ghostfield": true, "ghostarray": true, "reads_not": true, "readafter": true, "lemma": true, "impls": true, "bodyensures": true, "snap": true, "apply": true, "ghost": true, "frame": true, "end": true,
+	"axiom": true, "ghostfield": true, "ghostarray": true, "reads_not": true, "readafter": true, "lemma": true, "impls": true, "bodyensures": true, "snap": true, "apply": true, "ghostmod": true, "ghost": true, "frame": true, "end": true,
 }
 
 var labelRe = regexp.MustCompile(`^([A-Za-z_][A-Za-z0-9_\-]*):\s+(.*)$`)
@@ -193,6 +194,13 @@ func parseContractFile(path string, pkgPath string, assumed bool, cs *Contracts)
 				cur.TrustedWhy = text
 			case "results":
 				cur.Results = strings.Fields(strings.ReplaceAll(text, ",", " "))
+			case "ghostmod":
+				// ghost variables the function changes (in addition to its computed heap frame)
+				for _, m := range splitTop(text, ',') {
+					if m = strings.TrimSpace(m); m != "" {
+						cur.GhostMods = append(cur.GhostMods, m)
+					}
+				}
 			case "modifies":
 				cur.HasMod = true
 				for _, m := range splitTop(text, ',') {
